@@ -53,6 +53,30 @@ BASE = {
 SOURCES = {"files": ["/proj/src/a.f90", "/proj/src/sub/b.f90"], "extra_files": ["/proj/src/scripts/build.sh"]}
 
 
+_EXTRA = {}
+
+
+def _real_extra_sources():
+    """two non-Fortran sources whose names differ only in letter case, as REAL GenericSource objects (their constructor derives the
+    name under which the file is copied and linked); their bytes are mirrored into the in-memory file system"""
+    import atexit, os, shutil, tempfile
+    import ford.sourceform as sf
+    from ford.settings import ProjectSettings, ExtraFileType
+    if "objs" not in _EXTRA:
+        d = tempfile.mkdtemp(prefix="fvc19-")
+        atexit.register(shutil.rmtree, d, True)
+        files = {"linux/Defs.h": "// linux definitions\n#define A 1\n", "win/defs.h": "// windows definitions\n#define A 2\n"}
+        for rel, text in files.items():
+            os.makedirs(os.path.dirname(os.path.join(d, rel)), exist_ok=True)
+            with open(os.path.join(d, rel), "w") as f:
+                f.write(text)
+        st = ProjectSettings(extra_filetypes={"h": ExtraFileType("h", "//")}, preprocess=False)
+        _EXTRA["objs"] = [sf.GenericSource(os.path.join(d, rel), st) for rel in files]
+        _EXTRA["bytes"] = {os.path.join(d, rel): text.encode() for rel, text in files.items()}
+    vfs.fs().nodes.update(_EXTRA["bytes"])
+    return list(_EXTRA["objs"])
+
+
 def _documentation(out, profile, warnings):
     """a Documentation object as Documentation.__init__ leaves it, with real page objects on stand-in entities"""
     opts = dict(profile)
@@ -85,7 +109,7 @@ def _documentation(out, profile, warnings):
     import ford.fortran_project as fp
     proj = object.__new__(fp.Project)  # the real `allfiles` property (Fortran files, then the extra file types)
     proj.files = [S.Rec(path=VPath(p_), name=p_.rsplit("/", 1)[1]) for p_ in SOURCES["files"]]
-    proj.extra_files = [S.Rec(path=VPath(p_), name=p_.rsplit("/", 1)[1]) for p_ in SOURCES["extra_files"]]
+    proj.extra_files = [S.Rec(path=VPath(p_), name=p_.rsplit("/", 1)[1]) for p_ in SOURCES["extra_files"]] + _real_extra_sources()
     d.project = proj
     d.docs, d.lists, d.pagetree = docs, lists, tree
     d.index, d.search = page(out.IndexPage), page(out.SearchPage)
@@ -103,6 +127,7 @@ def _run_writeout(profile, stale, fail_at):
     fsys = vfs.MemFS(nodes)
     fsys.fail_at = fail_at
     vfs._CUR[0] = fsys
+    _real_extra_sources()   # mirrors the two real extra source files into the tree before the snapshot is taken
     before = {k: v for k, v in fsys.nodes.items() if not vfs.inside(k, OUT)}
     warnings = []
     extra = {(out, "shutil"): vfs.ShutilProxy, (out, "pathlib"): vfs.PathlibProxy, (out, "loc"): VPath("/pkg"),
@@ -151,9 +176,10 @@ def replay_confinement(w):
         t1 = fsys.tree(OUT)
         src = w["expect_source"]
         got = t1.get("/src/" + src.rsplit("/", 1)[1])
+        want_bytes = BASE.get(src, _EXTRA.get("bytes", {}).get(src))
         detail["source file"] = src
-        detail["served at src/<name>"] = None if got is None else ("the file" if got == BASE[src] else "different bytes")
-        bad = bad or got != BASE[src]
+        detail["served at src/<name>"] = None if got is None else ("the file" if got == want_bytes else "different bytes")
+        bad = bad or got != want_bytes
     if w.get("expect_copies"):
         t1 = fsys.tree(OUT)
         missing = [c for c in w["expect_copies"] if c not in t1]
@@ -212,11 +238,12 @@ def writeout_obligation(ctx, what):
                 E.require(sym.mk_bool(z3.BoolVal(len(said) >= 2)), "a copy_subdir directory / file that does not exist is not reported")
             if what == "sources":
                 t1 = fsys.tree(OUT)
-                for grp in ("files", "extra_files"):
-                    for src in SOURCES[grp]:
-                        E.e.snapshot = lambda m, src=src: dict(snap, fail_at=None, expect_source=src)
-                        E.require(sym.mk_bool(z3.BoolVal(t1.get("/src/" + src.rsplit("/", 1)[1]) == BASE[src])),
-                                  "the 'Source File' link of a source file does not serve that file")
+                allsrc = {src: BASE[src] for grp in ("files", "extra_files") for src in SOURCES[grp]}
+                allsrc.update(_EXTRA.get("bytes", {}))
+                for src, data in sorted(allsrc.items()):
+                    E.e.snapshot = lambda m, src=src: dict(snap, fail_at=None, expect_source=src)
+                    E.require(sym.mk_bool(z3.BoolVal(t1.get("/src/" + src.rsplit("/", 1)[1]) == data)),
+                              "the 'Source File' link of a source file does not serve that file")
         elif what != "confinement":
             E.require(False, "write-out fails although no fault was injected: " + repr(raised)[:80])
 
